@@ -41,10 +41,14 @@ PROPS = ["C04_dim_is_shape", "C04_xls_sheet_dim", "C04_bytes_stream", "C04_metad
          "C04_rtf_output_utf8able", "C04_rtf_output_utf8able_refuted", "C04_rtf_output_utf8able_partial",
          "C04_repair_surrogates_utf8able", "C04_repair_surrogates_identity",
          "C04_props_unchanged_ooxml", "C04_props_unchanged_odf", "C04_props_unchanged_epub_partial",
-         "C04_props_unchanged_epub_refuted", "C04_props_unchanged_html_meta"]
+         "C04_props_unchanged_epub_refuted", "C04_props_unchanged_html_meta",
+         "C04_props_unchanged_rtf", "C04_props_unchanged_rtf_refuted", "C04_rtf_simple_utf8able", "C04_rtf_simple_utf8able_refuted",
+         "C04_rtf_simple_raises_only_digits", "C04_rtf_simple_total_refuted", "C04_props_summary_ole", "C04_xls_summary_total",
+         "C04_xls_summary_total_refuted", "C04_props_unchanged_xlsx"]
 INST = ["C04_odf_overflow_unguarded", "C04_rtf_tables_wf", "C04_rtf_surrogate_unrepaired",
         "C04_rtf_ctypes_wf", "C04_image_decls", "C04_archive_member_path"]
-INST_FIXED = ["C04_odf_guarded", "C04_odf_overflow_witness", "C04_rtf_repaired", "C04_rtf_surrogate_witness", "C04_path_guarded"]
+INST_FIXED = ["C04_odf_guarded", "C04_odf_overflow_witness", "C04_rtf_repaired", "C04_rtf_surrogate_witness", "C04_path_guarded",
+              "C04_rtf_info_unicode", "C04_rtf_info_witness", "C04_rtf_simple_witness", "C04_ole_cp_aware"]
 
 Zs = lambda n: f"({n})%Z"
 pair = lambda *a: "(" + ", ".join(a) + ")"
@@ -191,7 +195,11 @@ def probes(ctx):
     pi = rx._RtfParser(b"")
     pi._extract_metadata("{\\rtf1{\\info{\\title Pr\\u8364?is}}\\pard x}")
     info_unicode = pi.metadata.title == "Pr\u20acis"
-    return odf_guard, rtf_repair, path_guard, info_unicode
+    from types import SimpleNamespace
+    from sharepoint2text.parsing.extractors.ms_legacy import ppt_extractor as ppx
+    fake = SimpleNamespace(get_metadata=lambda: SimpleNamespace(title=b"\xf6", codepage=1252))
+    ole_cp = ppx._extract_metadata(fake).title == "\u00f6"
+    return odf_guard, rtf_repair, path_guard, info_unicode, ole_cp
 
 
 def gen_tables(ctx):
@@ -200,7 +208,7 @@ def gen_tables(ctx):
     from sharepoint2text.parsing.extractors.ms_modern import docx_extractor as dx, pptx_extractor as px
     from sharepoint2text.parsing.extractors.open_office import odt_extractor as ox
     from sharepoint2text.parsing.extractors import epub_extractor as ex
-    odf_guard, rtf_repair, path_guard, info_unicode = probes(ctx)
+    odf_guard, rtf_repair, path_guard, info_unicode, ole_cp = probes(ctx)
     azci = [c for c in range(0x110000) if _AZ_CI.fullmatch(chr(c))]
     spaces = [c for c in range(0x110000) if chr(c).isspace()]
     decimals = [(c, unicodedata.decimal(chr(c))) for c in range(128, 0x110000) if unicodedata.decimal(chr(c), None) is not None]
@@ -234,6 +242,7 @@ def gen_tables(ctx):
         [pair(cstr(k), cstr(v)) for k, v in dt.RtfImage._CONTENT_TYPES.items()]) + ".\n"
     txt += f"Definition path_guard : bool := {coq_bool(path_guard)}.\n"
     txt += f"Definition info_unicode : bool := {coq_bool(info_unicode)}.\n"
+    txt += f"Definition ole_cp_aware : bool := {coq_bool(ole_cp)}.\n"
     txt += "(* code points matched by [a-z] under re.IGNORECASE *)\nDefinition az_ci_table : list N := " + nlist(azci) + ".\n\n"
     txt += "Definition docx_tags : prop_tags := " + tg(dx._DC_TITLE, dx._DC_CREATOR, dx._DC_SUBJECT, dx._CP_KEYWORDS, dx._DC_DESCRIPTION) + ".\n"
     txt += "Definition pptx_tags : prop_tags := " + tg(px._DC_TITLE, px._DC_CREATOR, px._DC_SUBJECT, px._CP_KEYWORDS, px._DC_DESCRIPTION) + ".\n"
@@ -246,12 +255,13 @@ def gen_tables(ctx):
     txt += "(* declared field types of the image classes: (class, data/blob, width, has size_bytes) *)\n"
     txt += "Definition img_decls : list (img_class * str * str * bool) := " + coq_list(decls) + ".\n"
     ctx.gen_write("Gen/C04Tables.v", txt)
-    ctx.extra["variants"] = {"odf_guarded": odf_guard, "rtf_repair": rtf_repair, "path_guard": path_guard, "info_unicode": info_unicode}
+    ctx.extra["variants"] = {"odf_guarded": odf_guard, "rtf_repair": rtf_repair, "path_guard": path_guard, "info_unicode": info_unicode,
+                             "ole_cp_aware": ole_cp}
     return dict(odf_guard=odf_guard, rtf_repair=rtf_repair, path_guard=path_guard, units=[u for u, _ in units],
                 spaces=spaces, decimals=decimals)
 
 
-PRE = ("From S2T Require Import Lib.PyStr C04.Model C04.ModelFloat C04.ModelPath C04.ModelRtf C04.ModelMeta C04.ModelRtfText C04.Corr "
+PRE = ("From S2T Require Import Lib.PyStr C04.Model C04.ModelFloat C04.ModelPath C04.ModelRtf C04.ModelMeta C04.ModelRtfText C04.ModelSummary C04.Corr "
        "Gen.C04Tables.\nFrom Coq Require Import List NArith ZArith.\nImport ListNotations.\nOpen Scope N_scope.\n")
 
 
@@ -1073,6 +1083,7 @@ def run_meta(ctx, tb):
         return root
 
     sv = lambda *xs: pair(*[cstr(x) for x in xs])
+    jobs = []
     n = ctx.n(120, 1200)
     for name, mod, tags_name in (("docx", dx, "docx_tags"), ("pptx", px, "pptx_tags")):
         tags = [mod._DC_TITLE, mod._DC_CREATOR, mod._DC_SUBJECT, mod._CP_KEYWORDS, mod._DC_DESCRIPTION, mod._CP_CATEGORY]
@@ -1091,7 +1102,7 @@ def run_meta(ctx, tb):
             ctx.case(("meta", name, k, got), root is not None, kind="meta:" + name)
             terms.append(pair(xml_term(root), sv(*got)))
             infos.append(ET.tostring(root, encoding="unicode") if root is not None else None)
-        corr(ctx, f"metadata_{name}_core", f"(ooxml_case {tags_name})", terms, infos, "option xml * (str * str * str * str * str)")
+        jobs.append((f"metadata_{name}_core", f"(ooxml_case {tags_name})", terms, infos, "option xml * (str * str * str * str * str)"))
     ons = ox.NS
     tags = [q(ons, "dc", "title"), q(ons, "dc", "creator"), q(ons, "dc", "subject"), q(ons, "meta", "keyword"), q(ons, "dc", "description"),
             q(ons, "dc", "language")]
@@ -1112,7 +1123,7 @@ def run_meta(ctx, tb):
         ctx.case(("meta", "odf", k, got), root is not None, kind="meta:odf")
         terms.append(pair(xml_term(root), sv(*got)))
         infos.append(ET.tostring(root, encoding="unicode") if root is not None else None)
-    corr(ctx, "metadata_odf_meta", "(odfmeta_case odf_office_meta odf_tags)", terms, infos, "option xml * (str * str * str * str * str)")
+    jobs.append(("metadata_odf_meta", "(odfmeta_case odf_office_meta odf_tags)", terms, infos, "option xml * (str * str * str * str * str)"))
     ens = ex.NS
     tags = [q(ens, "dc", "title"), q(ens, "dc", "creator"), q(ens, "dc", "subject"), q(ens, "dc", "description"), q(ens, "dc", "language")]
     terms, infos = [], []
@@ -1139,7 +1150,7 @@ def run_meta(ctx, tb):
         ctx.case(("meta", "epub", k, got), root is not None, kind="meta:epub")
         terms.append(pair(xml_term(root), sv(*got)))
         infos.append(ET.tostring(root, encoding="unicode") if root is not None else None)
-    corr(ctx, "metadata_epub_opf", "(epub_case spaces epub_opf_metadata epub_tags)", terms, infos, "option xml * (str * str * str * str * str)")
+    jobs.append(("metadata_epub_opf", "(epub_case spaces epub_opf_metadata epub_tags)", terms, infos, "option xml * (str * str * str * str * str)"))
     # HTML <meta> loop, through the real parser
     import sharepoint2text as s2t
     names = ["description", "Description", "KEYWORDS", "keywords", "author", "Author", "generator", "viewport", "", "\u0130"]
@@ -1170,7 +1181,178 @@ def run_meta(ctx, tb):
         terms.append(pair(coq_list([coq_list([pair(cstr(k_), cstr(v)) for k_, v in a]) for a in dicts]), sv(*got)))
         infos.append(doc)
     low_tbl = coq_list([pair(cstr(k_), cstr(v)) for k_, v in lows.items()])
-    corr(ctx, "metadata_html_meta", f"(htmlmeta_case {low_tbl})", terms, infos, "list (list (str * str)) * (str * str * str * str * str)")
+    jobs.append(("metadata_html_meta", f"(htmlmeta_case {low_tbl})", terms, infos, "list (list (str * str)) * (str * str * str * str * str)"))
+    from concurrent.futures import ThreadPoolExecutor
+    with ThreadPoolExecutor(max_workers=5) as pool:
+        list(pool.map(lambda j: corr(ctx, *j), jobs))
+
+
+# ------------------------------------------------------------------------------------------------ OLE summary / openpyxl records
+def spec_codec(cp) -> str:
+    """The codec a property set's code page stands for (independent restatement)."""
+    import codecs
+    if isinstance(cp, int) and not isinstance(cp, bool):
+        cp &= 0xFFFF
+        if cp == 1200:
+            return "utf-16-le"
+        if cp not in (0, 65001):
+            try:
+                return codecs.lookup("cp%d" % cp).name
+            except LookupError:
+                pass
+    return "utf-8"
+
+
+def run_summary(ctx, tb):
+    import olefile
+    from types import SimpleNamespace
+    from sharepoint2text.parsing.extractors.ms_legacy import doc_extractor as dx, ppt_extractor as ppx, xls_extractor as xx
+    from sharepoint2text.parsing.extractors.ms_modern import xlsx_extractor as xlx
+    rng = ctx.rng
+    cp_aware = ctx.extra["variants"]["ole_cp_aware"]
+    texts = ["Dragon Ball Z", "J\u00f6rg M\u00fcller", "\u4e2d\u6587", "  padded  ", "2024T", "a, b;", "\U0001f600 Z", "AT&T", "x" * 40, "Z"]
+    vals = [None, b"", "", 0, 5, 2.5] + [x for x in texts]
+    for x in texts:
+        for enc in ("utf-8", "cp1252", "cp936", "utf-16-le"):
+            try:
+                vals.append(x.encode(enc))
+            except UnicodeEncodeError:
+                pass
+    vals += [b"\xff\xfe\x00", b"ge\xf6rgpi", b"\x80", b"Z\x00Z"]
+    cps = [1252, 65001, -535, 936, 1200, 0, None, 99999, 437, 932, 1251]
+    fields = ("title", "author", "subject", "keywords", "comments")
+
+    def oval(v):
+        if v is None:
+            return "ONone"
+        if isinstance(v, bytes):
+            return f"(OBytes {nlist(v)})"
+        if isinstance(v, str):
+            return f"(OStr {cstr(v)})"
+        return f"(OOther {coq_bool(bool(v))} {cstr(str(v))})"
+
+    records = []
+    for k in range(ctx.n(100, 1200)):
+        records.append((rng.choice(cps), {f: rng.choice(vals) for f in fields}, "generated"))
+    # the records olefile reads from the fixtures
+    for f in fixture_files():
+        if f.suffix.lower() in (".doc", ".xls", ".ppt") and "password" not in str(f):
+            try:
+                with olefile.OleFileIO(str(f)) as o:
+                    m = o.get_metadata()
+                    records.append((m.codepage, {fl: getattr(m, fl, None) for fl in fields}, "fixture:" + f.name))
+            except Exception:  # noqa
+                continue
+    orig_ole = olefile.OleFileIO
+
+    class FakeOle:
+        def __init__(self, meta):
+            self.meta = meta
+
+        def get_metadata(self):
+            return self.meta
+
+        def __enter__(self):
+            return self
+
+        def __exit__(self, *a):
+            return False
+    terms, infos = [], []
+    for cp, rec, origin in records:
+        meta = SimpleNamespace(codepage=cp, create_time=None, last_saved_time=None, num_pages=0, num_words=0, num_chars=0,
+                               last_saved_by=None, company=None, **rec)
+        bs = sorted({v for v in rec.values() if isinstance(v, bytes)})
+        used_cp = cp if cp_aware else 65001
+        cpz = cp if isinstance(cp, int) else 0
+        dt = coq_list([pair(Zs(cpz if cp_aware else 65001), nlist(b), cstr(b.decode(spec_codec(used_cp), "replace"))) for b in bs])
+
+        def strict(b):
+            try:
+                return b.decode("utf-8")
+            except UnicodeDecodeError:
+                return None
+        st = coq_list([pair(nlist(b), coq_opt(strict(b), cstr)) for b in bs])
+        mterm = ("{| o_cp := %s; o_title := %s; o_author := %s; o_subject := %s; o_keywords := %s; o_comments := %s |}"
+                 % ((Zs(cpz),) + tuple(oval(rec[f]) for f in fields)))
+        for kind, name in ((0, "doc"), (1, "ppt"), (2, "xls")):
+            try:
+                if kind == 0:
+                    rd = object.__new__(dx._DocReader)
+                    rd.ole = FakeOle(meta)
+                    md = rd.get_metadata()
+                    got = (md.title, md.author, md.subject, md.keywords, "")
+                elif kind == 1:
+                    md = ppx._extract_metadata(FakeOle(meta))
+                    got = (md.title, md.author, md.subject, md.keywords, md.comments)
+                else:
+                    olefile.OleFileIO = lambda f_, meta=meta: FakeOle(meta)
+                    try:
+                        md = xx._read_metadata(io.BytesIO(b""))
+                    finally:
+                        olefile.OleFileIO = orig_ole
+                    got = (md.title, md.author, md.subject, "", "")
+            except (UnicodeDecodeError, AttributeError) as e:
+                got = None
+                if kind == 2:
+                    ctx.finding("xls-summary-ansi-text-raises",
+                                f"xls_extractor._read_metadata raises {type(e).__name__} for a summary property stored as "
+                                f"{[v for v in (rec['title'], rec['author'], rec['subject']) if v][:1]!r:.60} (code page {cp}); read_xls fails for such a workbook",
+                                {"record": {k_: repr(v) for k_, v in rec.items()}, "codepage": cp, "error": repr(e)})
+            # property oracle: str values arrive unchanged, bytes as text of the recorded code page
+            if got is not None:
+                for i_, f in enumerate(fields):
+                    if (kind == 0 and f == "comments") or (kind == 2 and f in ("keywords", "comments")):
+                        continue
+                    v = rec[f]
+                    want = v if isinstance(v, str) else v.decode(spec_codec(cp), "replace") if isinstance(v, bytes) else None
+                    if want is not None and got[i_] != want:
+                        ctx.finding(f"ole-summary-ansi-text-changed:{name}",
+                                    f"{name} summary property {f} stored as {v!r:.50} (code page {cp}) is reported as {got[i_]!r:.50}, expected {want!r:.50}",
+                                    {"record": {k_: repr(v_) for k_, v_ in rec.items()}, "codepage": cp, "field": f})
+            ctx.case(("summary", name, cp, repr(rec)), True, kind=f"summary:{name}:{origin.split(':')[0]}")
+            terms.append(pair(str(kind), mterm, dt, st, "None" if got is None else "(Some " + pair(*[cstr(g) for g in got]) + ")"))
+            infos.append((name, cp, rec, origin))
+    corr(ctx, "ole_summary_readers", "(summary_case ole_cp_aware)", terms, infos,
+         "N * ole_meta * list (Z * list N * str) * list (list N * option str) * option (str * str * str * str * str)", shard=80)
+    # XLSX
+    terms, infos = [], []
+    xv = [None, ""] + HOSTILE_VALUES[:40]
+    for k in range(ctx.n(120, 1200)):
+        pr = {f: rng.choice(xv) for f in ("title", "creator", "keywords", "description")}
+        wb = SimpleNamespace(properties=SimpleNamespace(lastModifiedBy=None, created=None, modified=None, language=None, revision=None,
+                                                        subject=rng.choice(xv), **pr))
+        md = xlx._extract_metadata_from_workbook(wb)
+        got = (md.title, md.creator, "", md.keywords, md.description)
+        for f, g in zip(("title", "creator", None, "keywords", "description"), got):
+            if f and g != (pr[f] or ""):
+                ctx.finding(f"props-changed:xlsx-properties:{f}", f"XLSX property {f} stored {pr[f]!r:.60} reported {g!r:.60}", {"props": pr})
+        ctx.case(("summary", "xlsx", repr(pr)), True, kind="summary:xlsx")
+        so = lambda x: coq_opt(x, cstr)
+        terms.append(pair("{| x_title := %s; x_creator := %s; x_keywords := %s; x_description := %s |}"
+                          % (so(pr["title"]), so(pr["creator"]), so(pr["keywords"]), so(pr["description"])), pair(*[cstr(g) for g in got])))
+        infos.append(pr)
+    corr(ctx, "xlsx_properties", "xlsx_case", terms, infos, "xlsx_properties * (str * str * str * str * str)", shard=600)
+    # end to end: an ANSI author in real DOC / XLS fixtures
+    import sharepoint2text as s2t
+    res = common.REPO / "sharepoint2text" / "tests" / "resources" / "legacy_ms"
+    for fn, old, new_, reader, want in (("pb_2011_1_gen_web.xls", b"georgpi", b"ge\xf6rgpi", s2t.read_xls, "ge\u00f6rgpi"),
+                                        ("Speech_Prime_Minister_of_The_Netherlands_EN.doc", b"Toby Screech", b"T\xf6by Screech", s2t.read_doc, "T\u00f6by Screech")):
+        src = res / fn
+        if not src.exists():
+            continue
+        data = src.read_bytes().replace(old, new_)
+        ctx.case(("summary-e2e", fn), True, kind="summary:end-to-end")
+        try:
+            got = next(iter(reader(io.BytesIO(data), path=None))).get_metadata().author
+        except Exception as e:  # noqa
+            ctx.finding("xls-summary-ansi-text-raises" if reader is s2t.read_xls else f"ole-summary-raises:{reader.__name__}",
+                        f"{reader.__name__} fails on {fn} once its author is {new_!r} (cp1252, as Office writes it): {e!r:.160}",
+                        {"base_file": fn, "replace": [old, new_]})
+            continue
+        if got != want:
+            ctx.finding(f"ole-summary-ansi-text-changed:{'doc' if reader is s2t.read_doc else 'xls'}",
+                        f"{reader.__name__}: author stored as {new_!r} in code page 1252 is reported as {got!r}, expected {want!r}",
+                        {"base_file": fn, "replace": [old, new_]})
 
 
 # ------------------------------------------------------------------------------------------------ type-directed instances
@@ -1406,13 +1588,13 @@ def run(ctx):
     tb = gen_tables(ctx)
     import time as _t
     _t0 = _t.time()
-    ctx.prove("C04/Props.v", ["C04/Proofs.vo", "C04/ProofsPath.vo", "C04/ProofsRtf.vo", "C04/ProofsMeta.vo"], expected=PROPS)
+    ctx.prove("C04/Props.v", ["C04/Proofs.vo", "C04/ProofsPath.vo", "C04/ProofsRtf.vo", "C04/ProofsMeta.vo", "C04/ProofsRtfText.vo", "C04/ModelSummary.vo"], expected=PROPS)
     ctx.prove("C04/Inst.v", ["Gen/C04Tables.vo", "C04/Corr.vo", "C04/ProofsRtf.vo"], expected=INST)
     ctx.prove("C04/InstFixed.v", ["C04/Inst.vo"], expected=INST_FIXED)
     ctx.extra["prove_s"] = round(_t.time() - _t0, 1)
     import time
     stage = {}
-    for fn in (run_odf, run_paths, run_rtf, run_rtf_text, run_meta, run_instances):
+    for fn in (run_odf, run_paths, run_rtf, run_rtf_text, run_meta, run_summary, run_instances):
         t0 = time.time()
         fn(ctx, tb)
         stage[fn.__name__] = round(time.time() - t0, 1)
